@@ -350,8 +350,10 @@ func init() {
 				_ = nd
 			}
 			// the impl line has the value for the insertion order; if the order cannot matter this is the real value
+			// (an incomplete enumeration of the orders - many mobility terms - may have met only one value although the real
+			// call, in Go's map order of the moment, returns a neighbour one ulp away: never report the real value in that case)
 			v := canon
-			if len(finals[i]) == 1 {
+			if complete && len(finals[i]) == 1 {
 				v = real
 			}
 			out = append(out, fmt.Sprintf("pp_%s=%s %s:[%s]", name, fmt32(v), name, parts.String(b)))
